@@ -40,6 +40,7 @@ func featureOf(sqlText string) string {
 	return strings.Join(f, "+")
 }
 
+var reParenCollate = regexp.MustCompile(`(?i)\)\s*COLLATE\s`)
 var reIntegerArgs = regexp.MustCompile(`(?i)^\s*integer\s*\(`)
 
 func c10Table(c *sim.Ctx, low *sdb.Database, w *world.World, t *sq.Table) {
@@ -247,6 +248,11 @@ func c10Table(c *sim.Ctx, low *sdb.Database, w *world.World, t *sq.Table) {
 					}
 					if a[0] == "<expr>" {
 						field += ":expr"
+						// known finding: "(a || b) COLLATE c" - the parser drops the parentheses and
+						// then takes the COLLATE for part of the last operand
+						if a[1] != b[1] && reParenCollate.MatchString(isql) {
+							field = "paren-expr-collate"
+						}
 					}
 					break
 				}
